@@ -14,36 +14,56 @@ Inductive lang : re -> str -> Prop :=
 | LStar0 a : lang (RStar a) []
 | LStarS a s t : lang a s -> lang (RStar a) t -> lang (RStar a) (s ++ t).
 
+Ltac inv H := inversion H; subst; clear H.
+Ltac app_nil := match goal with X : _ ++ _ = [] |- _ => apply app_eq_nil in X; destruct X; subst end.
+
 Lemma nullable_lang : forall r, nullable r = true <-> lang r [].
 Proof.
   induction r; simpl; split; intro H; try discriminate; try (now constructor).
-  - inversion H.
-  - inversion H.
-  - inversion H.
+  - inv H.
+  - inv H.
+  - inv H.
   - apply andb_true_iff in H. destruct H as [Ha Hb].
     change (@nil ascii) with (@nil ascii ++ []). constructor; [apply IHr1 | apply IHr2]; assumption.
-  - inversion H; subst. apply app_eq_nil in H0. destruct H0; subst.
-    apply andb_true_iff; split; [apply IHr1 | apply IHr2]; assumption.
+  - inv H. app_nil. apply andb_true_iff; split; [apply IHr1 | apply IHr2]; assumption.
   - apply orb_true_iff in H. destruct H; [apply LAltL, IHr1 | apply LAltR, IHr2]; assumption.
-  - apply orb_true_iff. inversion H; subst; [left; apply IHr1 | right; apply IHr2]; assumption.
+  - apply orb_true_iff. inv H; [left; apply IHr1 | right; apply IHr2]; assumption.
+Qed.
+
+Lemma lang_emp : forall s, ~ lang REmp s.
+Proof. intros s H. inv H. Qed.
+Lemma lang_eps : forall s, lang REps s -> s = [].
+Proof. intros s H. now inv H. Qed.
+Lemma cat_emp_l : forall b s, ~ lang (RCat REmp b) s.
+Proof. intros b s H. inv H. match goal with X : lang REmp _ |- _ => inv X end. Qed.
+Lemma cat_emp_r : forall a s, ~ lang (RCat a REmp) s.
+Proof. intros a s H. inv H. match goal with X : lang REmp _ |- _ => inv X end. Qed.
+Lemma cat_eps_l : forall b s, lang (RCat REps b) s <-> lang b s.
+Proof.
+  intros b s; split; intro H.
+  - inv H. match goal with X : lang REps _ |- _ => inv X end. assumption.
+  - change s with ([] ++ s). constructor; [constructor | assumption].
 Qed.
 
 Lemma mkcat_lang : forall a b s, lang (mkcat a b) s <-> lang (RCat a b) s.
 Proof.
-  intros a b s. unfold mkcat.
-  destruct a; destruct b; try tauto;
-    try (split; intro H; [inversion H | inversion H; subst; match goal with X : lang REmp _ |- _ => inversion X end]; fail).
-  all: try (split; intro H;
-            [ change s with ([] ++ s); constructor; [constructor | exact H]
-            | inversion H; subst; match goal with X : lang REps _ |- _ => inversion X; subst end; simpl; assumption ]).
+  intros a b s.
+  destruct a; try (simpl; split; intro H; [now apply lang_emp in H | now apply cat_emp_l in H]).
+  all: destruct b; simpl; try tauto;
+    try (split; intro H; [now apply lang_emp in H | now apply cat_emp_r in H]);
+    try (symmetry; apply cat_eps_l).
 Qed.
+
+Lemma alt_emp_l : forall b s, lang (RAlt REmp b) s <-> lang b s.
+Proof. intros; split; intro H; [inv H; [match goal with X : lang REmp _ |- _ => inv X end | assumption] | now apply LAltR]. Qed.
+Lemma alt_emp_r : forall a s, lang (RAlt a REmp) s <-> lang a s.
+Proof. intros; split; intro H; [inv H; [assumption | match goal with X : lang REmp _ |- _ => inv X end] | now apply LAltL]. Qed.
 
 Lemma mkalt_lang : forall a b s, lang (mkalt a b) s <-> lang (RAlt a b) s.
 Proof.
-  intros a b s. unfold mkalt.
-  destruct a; destruct b; try tauto;
-    try (split; intro H; [now apply LAltR | inversion H; subst; [match goal with X : lang REmp _ |- _ => inversion X end | assumption]]; fail);
-    try (split; intro H; [now apply LAltL | inversion H; subst; [assumption | match goal with X : lang REmp _ |- _ => inversion X end]]; fail).
+  intros a b s.
+  destruct a; try (simpl; symmetry; apply alt_emp_l).
+  all: destruct b; simpl; try tauto; try (symmetry; apply alt_emp_r).
 Qed.
 
 (* a non-empty word of a* splits into a non-empty first factor *)
@@ -57,36 +77,49 @@ Proof.
   - simpl in Ew. inversion Ew; subst. exists s', t. auto.
 Qed.
 
-Lemma deriv_lang : forall r c s, lang (deriv c r) s <-> lang r (c :: s).
+Lemma cat_cons : forall a b c s, lang (RCat a b) (c :: s) ->
+  (exists s1 s2, s = s1 ++ s2 /\ lang a (c :: s1) /\ lang b s2) \/ (lang a [] /\ lang b (c :: s)).
 Proof.
-  induction r; intros c s; simpl.
-  - split; intro H; inversion H.
-  - split; intro H; inversion H.
-  - destruct (Ascii.eqb c c0) eqn:E.
-    + apply Ascii.eqb_eq in E. subst. split; intro H; inversion H; subst; constructor.
-    + split; intro H; [inversion H|]. inversion H; subst. rewrite Ascii.eqb_refl in E. discriminate.
-  - destruct (cls_mem neg ranges c) eqn:E.
-    + split; intro H; inversion H; subst; [now constructor | constructor].
-    + split; intro H; [inversion H|]. inversion H; subst. congruence.
+  intros a b c s H. inv H.
+  match goal with X : ?u ++ ?v = c :: s |- _ => destruct u as [|c' u']; simpl in X end.
+  - subst. right. split; assumption.
+  - match goal with X : _ :: _ = _ :: _ |- _ => inversion X; subst end. left. eauto.
+Qed.
+
+Lemma deriv_lang : forall r x s, lang (deriv x r) s <-> lang r (x :: s).
+Proof.
+  induction r; intros x s; simpl.
+  - split; intro H; inv H.
+  - split; intro H; inv H.
+  - destruct (Ascii.eqb x c) eqn:E.
+    + apply Ascii.eqb_eq in E. subst. split; intro H; inv H; constructor.
+    + split; intro H; [inv H|]. inv H. rewrite Ascii.eqb_refl in E. discriminate.
+  - destruct (cls_mem neg ranges x) eqn:E.
+    + split; intro H; inv H; [now constructor | constructor].
+    + split; intro H; [inv H|]. inv H. congruence.
   - destruct (nullable r1) eqn:N.
     + rewrite mkalt_lang. split; intro H.
-      * inversion H; subst.
-        -- apply mkcat_lang in H2. inversion H2; subst. apply IHr1 in H3.
-           change (c :: s0 ++ t) with ((c :: s0) ++ t). now constructor.
-        -- apply IHr2 in H2. change (c :: s) with ([] ++ c :: s). constructor; [now apply nullable_lang | assumption].
-      * inversion H; subst. destruct s0 as [|c' s0'].
-        -- simpl in H1. subst. apply LAltR. now apply IHr2.
-        -- simpl in H1. inversion H1; subst. apply LAltL. apply mkcat_lang. constructor; [now apply IHr1 | assumption].
+      * inv H.
+        -- match goal with X : lang (mkcat _ _) _ |- _ => apply mkcat_lang in X; inv X end.
+           match goal with X : lang (deriv _ r1) _ |- _ => apply IHr1 in X end.
+           match goal with |- lang _ (x :: ?u ++ ?v) => change (x :: u ++ v) with ((x :: u) ++ v) end. now constructor.
+        -- match goal with X : lang (deriv _ r2) _ |- _ => apply IHr2 in X end.
+           change (x :: s) with ([] ++ x :: s). constructor; [now apply nullable_lang | assumption].
+      * apply cat_cons in H. destruct H as [(s1 & s2 & E & H1 & H2) | [H1 H2]].
+        -- subst. apply LAltL. apply mkcat_lang. constructor; [now apply IHr1 | assumption].
+        -- apply LAltR. now apply IHr2.
     + rewrite mkcat_lang. split; intro H.
-      * inversion H; subst. apply IHr1 in H2. change (c :: s0 ++ t) with ((c :: s0) ++ t). now constructor.
-      * inversion H; subst. destruct s0 as [|c' s0'].
-        -- apply nullable_lang in H2. congruence.
-        -- simpl in H1. inversion H1; subst. constructor; [now apply IHr1 | assumption].
+      * inv H. match goal with X : lang (deriv _ r1) _ |- _ => apply IHr1 in X end.
+        match goal with |- lang _ (x :: ?u ++ ?v) => change (x :: u ++ v) with ((x :: u) ++ v) end. now constructor.
+      * apply cat_cons in H. destruct H as [(s1 & s2 & E & H1 & H2) | [H1 H2]].
+        -- subst. constructor; [now apply IHr1 | assumption].
+        -- apply nullable_lang in H1. congruence.
   - rewrite mkalt_lang. split; intro H.
-    + inversion H; subst; [apply LAltL, IHr1 | apply LAltR, IHr2]; assumption.
-    + inversion H; subst; [apply LAltL, IHr1 | apply LAltR, IHr2]; assumption.
+    + inv H; [apply LAltL, IHr1 | apply LAltR, IHr2]; assumption.
+    + inv H; [apply LAltL, IHr1 | apply LAltR, IHr2]; assumption.
   - rewrite mkcat_lang. split; intro H.
-    + inversion H; subst. apply IHr in H2. change (c :: s0 ++ t) with ((c :: s0) ++ t). now constructor.
+    + inv H. match goal with X : lang (deriv _ r) _ |- _ => apply IHr in X end.
+      match goal with |- lang _ (x :: ?u ++ ?v) => change (x :: u ++ v) with ((x :: u) ++ v) end. now constructor.
     + apply star_cons in H. destruct H as (s1 & s2 & E & H1 & H2). subst. constructor; [now apply IHr | assumption].
 Qed.
 
